@@ -70,18 +70,43 @@ fn flat_config(spdc: &SPDC) -> Value {
   Value::Object(out)
 }
 
-/// raw (unrounded) state the property's units are checked against
+/// raw (unrounded) state: every numeric field of the setup in SI units (the model's record), every f64 as its bit pattern
+fn beam_raw(b: &spdcalc::prelude::Beam) -> Value {
+  json!({"waist_x": fx(*(b.waist().x / M)), "waist_y": fx(*(b.waist().y / M)), "omega": fx(*(b.frequency() / (RAD / S))),
+    "theta": fx(*(b.theta_internal() / RAD)), "phi": fx(*(b.phi() / RAD)), "wavelength_m": fx(*(b.vacuum_wavelength() / M)),
+    "polarization": format!("{:?}", b.polarization())})
+}
+
+fn apod_raw(ap: &Apodization) -> Value {
+  match ap {
+    Apodization::Off => json!({"kind": "Off"}),
+    Apodization::Gaussian { fwhm } => json!({"kind": "Gaussian", "p": fx(*(*fwhm / M))}),
+    Apodization::Bartlett(a) => json!({"kind": "Bartlett", "p": fx(*a)}),
+    Apodization::Blackman(a) => json!({"kind": "Blackman", "p": fx(*a)}),
+    Apodization::Connes(a) => json!({"kind": "Connes", "p": fx(*a)}),
+    Apodization::Cosine(a) => json!({"kind": "Cosine", "p": fx(*a)}),
+    Apodization::Hamming(a) => json!({"kind": "Hamming", "p": fx(*a)}),
+    Apodization::Welch(a) => json!({"kind": "Welch", "p": fx(*a)}),
+    Apodization::Interpolate(v) => json!({"kind": "Interpolate", "values": fxs(v)}),
+  }
+}
+
 fn raw_state(spdc: &SPDC) -> Value {
   let pp = match &spdc.pp {
     PeriodicPoling::Off => json!({"on": false}),
-    PeriodicPoling::On { period, sign, .. } => json!({"on": true, "period_m": fx(*(*period / M)), "sign": if *sign == Sign::POSITIVE { "POSITIVE" } else { "NEGATIVE" }}),
+    PeriodicPoling::On { period, sign, apodization } => json!({"on": true, "period_m": fx(*(*period / M)),
+      "sign": if *sign == Sign::POSITIVE { "POSITIVE" } else { "NEGATIVE" }, "apodization": apod_raw(apodization)}),
   };
   json!({
-    "signal_wavelength_m": fx(*(spdc.signal.vacuum_wavelength() / M)), "idler_wavelength_m": fx(*(spdc.idler.vacuum_wavelength() / M)),
-    "pump_wavelength_m": fx(*(spdc.pump.vacuum_wavelength() / M)),
-    "signal_omega": fx(*(spdc.signal.frequency() / (RAD / S))), "idler_omega": fx(*(spdc.idler.frequency() / (RAD / S))), "pump_omega": fx(*(spdc.pump.frequency() / (RAD / S))),
-    "signal_theta": fx(*(spdc.signal.theta_internal() / RAD)), "idler_theta": fx(*(spdc.idler.theta_internal() / RAD)),
-    "crystal_temperature_k": fx(*(spdc.crystal_setup.temperature / K)),
+    "signal": beam_raw(&spdc.signal), "idler": beam_raw(&spdc.idler), "pump": beam_raw(&spdc.pump),
+    "crystal": {"phi": fx(*(spdc.crystal_setup.phi / RAD)), "theta": fx(*(spdc.crystal_setup.theta / RAD)),
+      "length": fx(*(spdc.crystal_setup.length / M)), "temperature": fx(*(spdc.crystal_setup.temperature / K)),
+      "kind": format!("{}", spdc.crystal_setup.crystal), "pm_type": format!("{}", spdc.crystal_setup.pm_type),
+      "counter_propagation": spdc.crystal_setup.counter_propagation},
+    "pump_average_power": fx(*(spdc.pump_average_power / W)), "pump_bandwidth": fx(*(spdc.pump_bandwidth / M)),
+    "pump_spectrum_threshold": fx(spdc.pump_spectrum_threshold),
+    "signal_waist_position": fx(*(spdc.signal_waist_position / M)), "idler_waist_position": fx(*(spdc.idler_waist_position / M)),
+    "deff": fx(*(spdc.deff / (M / V))),
     "pp": pp,
   })
 }
